@@ -44,6 +44,8 @@ static void asm_build_index_tables() {
   while (INSTR_TABLE[++i].name != NA) {
     if (INSTR_TABLE[i].instr_name[0] != '\0') {
       if (previous_char != INSTR_TABLE[i].instr_name[0])
+        AL_VERIF_TBL(1, 0, INSTR_TABLE[i].instr_name[0] - 'a', i);
+      if (previous_char != INSTR_TABLE[i].instr_name[0])
         instr_table_index[INSTR_TABLE[i].instr_name[0] - 'a'] = i;
       previous_char = INSTR_TABLE[i].instr_name[0];
     }
@@ -53,6 +55,7 @@ static void asm_build_index_tables() {
   previous_char = '\0';
   while (OPD_FORMAT_TABLE[++i].val != opd_error) {
     if (previous_char != OPD_FORMAT_TABLE[i].str[0]) {
+      AL_VERIF_TBL(1, 1, OPD_FORMAT_TABLE[i].str[0] - 'a', i);
       opd_format_table_index[OPD_FORMAT_TABLE[i].str[0] - 'a'] = i;
       previous_char = OPD_FORMAT_TABLE[i].str[0];
     }
